@@ -105,6 +105,21 @@ def make(targets, timeout=1500):
     return sh(['make', '-j16'] + targets, cwd=COQ, timeout=timeout)
 
 
+def default_targets(prop: str):
+    """the compiled model files the stages of a property evaluate (besides what Props/<prop>.vo depends on): only those, so that a
+    generator that refuses the current source takes down exactly the properties that rest on its output"""
+    n = int(prop[1:])
+    t = ['Py/CaseLib.vo']
+    if n <= 3: t += ['Gen/ModbusGen.vo', 'Gen/ProtoGen.vo']
+    if n <= 10: t += ['Model/Proto.vo']
+    if n == 7 or n == 8: t += ['Gen/ModbusGen.vo', 'Gen/ProtoGen.vo']
+    if n == 9: t += ['Model/FailCount.vo']
+    if n in (11, 12, 13, 16): t += ['Model/Sensors.vo', 'Gen/TablesGen.vo']
+    if n in (14, 15): t += ['Model/ETCaps.vo']
+    if n in (17, 19): t += ['Model/Sensors.vo']
+    return t
+
+
 def coq_error_summary(out: str) -> str:
     m = re.search(r'File "([^"]+)", line (\d+), characters [\d-]+:\s*\n(Error:.*?)(?:\n\n|\nmake|\Z)', out, re.S)
     if m:
@@ -197,15 +212,21 @@ def run_check(prop: str, tier: str, seed: int) -> int:
     with Lock():
         # 1. regenerate the generated part of the model from the current working tree
         rc, out = regenerate()
-        if rc != 0:
+        gen_failures = re.findall(r'^UNSUPPORTED\[(\w+)\]: (.*)$', out, re.M) if rc != 0 else []
+        if rc != 0 and not gen_failures:      # the generator itself crashed
             ctx.coq_ok = False
             ctx.gen_error = ' '.join(out.split())[-600:]
+        # a generated file that could not be produced is written as a file that does not compile: the build below fails for exactly
+        # the properties whose theorems depend on it
         # 2. full .vo build of the property's theorems
         if ctx.coq_ok:
-            rc, out = make([f'Props/{prop}.vo'] + list(spec.get('coq_targets', ['Model/Proto.vo', 'Model/Sensors.vo', 'Model/FailCount.vo', 'Gen/TablesGen.vo', 'Py/CaseLib.vo'])))
+            rc, out = make([f'Props/{prop}.vo'] + list(spec.get('coq_targets', default_targets(prop))))
             if rc != 0:
                 ctx.coq_ok = False
                 ctx.coq_error = coq_error_summary(out)
+                for name, msg in gen_failures:
+                    if f'Gen/{name}.v' in out or f'GENERATION_FAILED_{name}' in out:
+                        ctx.gen_error = f'{name}: {msg}'[:600]
         if ctx.coq_ok:
             info, err = assumptions(prop)
             if info is None:
